@@ -50,7 +50,7 @@ impl Prop for P {
         }
     }
     fn cases(tier: Tier) -> u64 {
-        tier.pick(120_000, 1_000_000)
+        tier.pick(400_000, 4_000_000)
     }
     fn strategy(_tier: Tier) -> BoxedStrategy<Case> {
         (prop_oneof![9 => valid_src(false), 1 => valid_src(true)], tail(), dec_sched(), any::<u32>(), any::<u64>(), proptest::collection::vec(prop_oneof![1u32..=4, 1u32..=300, Just(1u32 << 16)], 1..4))
